@@ -1016,8 +1016,12 @@ def heap_canaries(res, traces, pool, tmp):
             break
     want = {"frame": "changed-another-object", "alias": "result-aliases-live-object",
             "operand": "changed-another-object", "stale": "post-state-mismatch", "err-changes": "post-state-mismatch"}
-    if {k for k, _ in can} != set(want):
-        raise MachineryError("could not build every heap canary: have %s" % sorted(k for k, _ in can))
+    have = {k for k, _ in can}
+    # which kinds can be derived depends on the recorded histories (e.g. whether a mutator raised while
+    # two objects were live); the two object-identity clauses are indispensable, the rest is best effort
+    if not {"frame", "alias"} <= have or len(have) < 3:
+        raise MachineryError("could not build the heap canaries: have %s" % sorted(have))
+    res.note("heap_canary_kinds_not_built", sorted(set(want) - have))
     _, verdicts = _validate_once([c for _, c in can], pool, tmp, coverage_first=False)
     bad = [(k, v[0]) for (k, _), v in zip(can, verdicts) if v[0] != want[k]]
     if bad:
